@@ -3,8 +3,10 @@ CONSTANTS
   MaxNodes = 12
   BaseSet <- DeepBases
   RunCfgSeq <- RunsDeep
-  Prods <- AllProds
+  Prods <- TreeProds
   KISet <- KIClassic
+  EnvWhereSet <- EnvWheres
+  Deviations = {}
   EmitMin = 3
   EmitFrom = 3
   EmitMod = 32
